@@ -8,11 +8,11 @@ TB = "Trusted base: Go toolchain/runtime, stdlib SHA-1/256/512 compression funct
 CHECKS = {
  "C01": dict(
   technique="runtime reference-model monitor at the API boundary + HMAC-constructor hook (observes key/message, substitutes the digest to drive the formatting stage)",
-  text="Every GenerateHOTP execution of a seeded boundary/random workload is compared byte-for-byte with an independent RFC 4226 model (own HMAC, big-integer modulus); unsupported digits/hash values must yield an error; through the verif hook the monitor also observes the exact (key, message) of the HMAC and pushes chosen 31-bit values through the real truncation/modulus/formatting code. Exploration, not enumeration of 2^64 counters or 2^31 values.",
+  text="Every GenerateHOTP execution of a seeded boundary/random workload is compared byte-for-byte with an independent RFC 4226 model (own HMAC, big-integer modulus); unsupported digits/hash values must yield an error; Param fields generation does not use (Skew, Period) take arbitrary values; through the verif hook the monitor also observes the exact (key, message) of the HMAC and pushes chosen 31-bit values through the real truncation/modulus/formatting code. Exploration, not enumeration of 2^64 counters or 2^31 values.",
   design="7/C01"),
  "C02": dict(
   technique="runtime reference-model monitor (differential against independent HOTP at floor(unix/period)) over generated instants, zones, monotonic readings and periods",
-  text="Each GenerateTOTP execution is compared with the reference HOTP at floor(unix/period); one second is rendered as 20 different time.Time values (nanoseconds, zones, monotonic reading) and each must give the reference code; step boundaries +-2 s; defaults (nil params, period 0) are checked consistently across GenerateTOTP, ValidateTOTP and GenerateTOTPURL. Held on the executions produced.",
+  text="Each GenerateTOTP execution is compared with the reference HOTP at floor(unix/period); one second is rendered as 20 different time.Time values (nanoseconds, zones, monotonic reading) and each must give the reference code; step boundaries +-2 s; Skew (unused by generation) takes arbitrary values; defaults (nil params, period 0) are checked consistently across GenerateTOTP, ValidateTOTP and GenerateTOTPURL. Held on the executions produced.",
   design="7/C02"),
  "C03": dict(
   technique="runtime window-membership oracle: verdicts of ValidateHOTP compared with the reference set of codes for counters max(0,c-s)..c+s",
@@ -50,16 +50,16 @@ CHECKS = {
   design="7/C10"),
  "C11": dict(
   technique="Go race detector + differential against the sequential reference under stress: per-configuration -race child processes, yield injection between pool Get and Put (HMAC-constructor hook), adversarial pool user, GC storms, retained-string re-check",
-  text="Each configuration (1..64 goroutines x GOMAXPROCS 1..16 x yields x pool adversary x GC storm) hammers a hot table of ~450 operations over 8 secrets in its own -race child; every concurrent result is compared with the reference / called-alone value, retained code strings are re-checked after GCs and further calls, and race reports with a frame of the library are violations (reports inside the harness only mark the run inconclusive). Thorough adds an -asan configuration. Interleavings are explored by stress, not enumerated.",
+  text="Each configuration (1..64 goroutines x GOMAXPROCS 1..16 x yields x pool adversary x GC storm) hammers a hot table of ~460 operations over 8 secrets (including a rolling family of 3000 distinct suite strings) in its own -race child; every concurrent result is compared with the reference / called-alone value, retained code strings are re-checked after GCs and further calls, and race reports with a frame of the library are violations (reports inside the harness only mark the run inconclusive). Thorough adds an -asan configuration. Interleavings are explored by stress, not enumerated.",
   note="Trusted: Go race detector (happens-before; reports only races that occur in the executions produced), reference models. porcupine is not used: the sequential specification is a pure function of the arguments.",
   design="7/C11"),
  "C12": dict(
   technique="runtime invariant monitor: canary-filled backing arrays around every caller slice, deep snapshots of argument structs and package state before/after, address-range aliasing check (thorough: also -race/checkptr and -asan builds)",
-  text="OCRA input fields are carved out of canary arrays in three length/capacity shapes and the full backing arrays, slice headers and suite are compared after OCRAInput.Validate / GenerateOCRA / ValidateOCRA; Param pointers, parsed URLs and returned URLParam/url.URL/SuiteConfig/list values are snapshotted, mutated and re-queried; returned slices are checked pairwise and against arguments for memory overlap; defaults, TimeCounterFunc, hash-name table and the registry (through the hook) are compared with a start snapshot after every batch.",
+  text="OCRA input fields (for hand-built, registered and generated unregistered suites) are carved out of canary arrays in three length/capacity shapes and the full backing arrays, slice headers and suite are compared after OCRAInput.Validate / GenerateOCRA / ValidateOCRA; Param pointers, parsed URLs and returned URLParam/url.URL/SuiteConfig/list values are snapshotted, mutated and re-queried; returned slices are checked pairwise and against arguments for memory overlap; defaults, TimeCounterFunc, hash-name table and the registry (through the hook) are compared with a start snapshot after every batch.",
   design="7/C12"),
  "C13": dict(
   technique="runtime invariant monitor on every (ok, err) pair and error text produced by the validation workloads and by failing calls of the other operations",
-  text="The (ok, err) pair of every ValidateHOTP/TOTP/OCRA execution of reduced C03/C04/C06 workloads plus an explicit failure-cause sweep must be (true,nil) or (false,error); each error text (all Unwrap levels) is scanned for the secret in every spelling/raw/hex form and for any code of the acceptance window (keys >= 10 bytes, codes >= 6 digits so coincidences are excluded).",
+  text="The (ok, err) pair of every ValidateHOTP/TOTP/OCRA execution of reduced C03/C04/C06 workloads plus an explicit failure-cause sweep (including failing URLs from a label x type x query-oddity cross product) must be (true,nil) or (false,error); each error text (all Unwrap levels) is scanned for the secret in every spelling/raw/hex form and for any code of the acceptance window (keys >= 10 bytes, codes >= 6 digits so coincidences are excluded).",
   design="7/C13"),
  "C14": dict(
   technique="runtime reference-predicate monitor; the finite usability grid is enumerated completely, admission by per-field length sweeps",
@@ -71,7 +71,7 @@ CHECKS = {
   design="7/C15"),
  "C16": dict(
   technique="runtime round-trip monitor with an independent RFC 3986 decoder of the URL text",
-  text="Generated (issuer, account, secret, digits 0..255, hash, period) sets go through Generate*URL(...).String(); the text is decoded by an independent percent-decoder and by ParseOTPAuthURL(url.Parse(text)); both must return the input (so escape-twice/unescape-twice cannot pass). Hand-assembled URLs with digits/period texts over -2^63..2^64+ must fail or return exactly the number written; query shapes of real links (&amp;, ';', bad escapes, repeats) are included.",
+  text="Generated (issuer, account, secret in every accepted spelling or arbitrary text, digits 0..255, hash, period) sets go through Generate*URL(...).String(); the text is decoded by an independent percent-decoder and by ParseOTPAuthURL(url.Parse(text)); both must return the input (so escape-twice/unescape-twice cannot pass). Hand-assembled URLs with digits/period texts over -2^63..2^64+ must fail or return exactly the number written; query shapes of real links (&amp;, ';', bad escapes, repeats) are included.",
   design="7/C16"),
  "C17": dict(
   technique="runtime reference-model monitor: helper outputs versus independent encoders, and end-to-end OCRA codes for numeric questions versus the RFC 6287 model",
@@ -79,7 +79,7 @@ CHECKS = {
   design="7/C17"),
  "C18": dict(
   technique="black-box differential monitor on the real server binary over loopback: each HTTP response versus the in-process library call with exactly the request's parameters and versus the independent reference model (thorough: also a -race build of the server)",
-  text="The server is built from the working tree and driven with generated well-formed requests to all ten endpoints (every optional field present/absent at random, known and unknown digit/hash spellings, raw and structured suites, white space around secrets, fields of up to ~100 KiB giving large responses) from 1..32 client goroutines on reused and fresh connections; codes, verdicts, echoes, suite list/description, URL and secret responses are compared with the library and the reference; generated codes are fed back to the validate endpoints; 'timestamp omitted' is bracketed by the client's clock around the timestamp the server reports.",
+  text="The server is built from the working tree and driven with generated well-formed requests to all ten endpoints (every optional field present/absent at random, known and unknown digit/hash spellings, raw and structured suites, white space around secrets, fields of up to ~100 KiB giving large responses) from 1..32 client goroutines on reused and fresh connections; codes, verdicts, echoes, suite list/description, URL and secret responses are compared with the library and the reference; generated codes are fed back to the validate endpoints; at both ends of the 64-bit counter range the validate verdict is judged against the library alone; 'timestamp omitted' is bracketed by the client's clock around the timestamp the server reports.",
   note="Trusted: Go net/http client, reference models. The clock is only read to bracket the server-reported timestamp; no latency verdicts.",
   design="7/C18"),
  "C19": dict(
@@ -89,7 +89,7 @@ CHECKS = {
   design="7/C19"),
  "C20": dict(
   technique="black-box differential monitor on the freshly built wasm module under Node 20 (through globalThis and through the package's exported object, by name) + native overlay build of the binding's Go sources",
-  text="otp.wasm is built from the working tree into a scratch copy of otp-js and driven under Node with a generated case list over the property's common domain; answers through both access paths are compared per exported name with the native library and the reference model (codes, verdicts at every window distance and for hostile code strings, timestamps near the epoch with the native verdict as oracle, URLs); malformed calls (every argument position x hostile JS values, too few/many arguments, range errors) must return 'error:…' and are followed by a known-answer probe; a thrown exception or missing result (Go runtime died) is a violation. The same Go sources are compiled natively through an overlay for a 10x larger differential.",
+  text="otp.wasm is built from the working tree into a scratch copy of otp-js and driven under Node with a generated case list over the property's common domain; answers through both access paths are compared per exported name with the native library and the reference model (codes, verdicts at every window distance and for hostile code strings, timestamps near the epoch with the native verdict as oracle, URLs); numbers with a fractional part on any numeric argument must give the integer part's answer or 'error:…'; malformed calls (every argument position x hostile JS values, too few/many arguments, range errors) must return 'error:…' and are followed by a known-answer probe; a thrown exception or missing result (Go runtime died) is a violation. The same Go sources are compiled natively through an overlay for a 10x larger differential.",
   note="Trusted: Node 20 + wasm_exec.js of the toolchain, reference models. The committed otp-js/lib/otp.wasm artefact is not what is checked.",
   design="7/C20"),
 }
